@@ -3,7 +3,7 @@ specification that rejected it; for engines with a reconstruction recipe the har
 import json, os, sys
 import vlib
 
-TRACE_MODULE = {"cal": "Trace_Calendar"}
+TRACE_MODULE = {"cal": "Trace_Calendar", "named": "Trace_NamedCal"}
 
 
 def run(path):
@@ -15,6 +15,16 @@ def run(path):
         print("model-level violation (no implementation trace): %s" % json.dumps(case))
         print("VIOLATION property=%s replay=%s" % (pid, path))
         return 1
+    if eng == "hang":
+        vlib.build_harness()
+        try:
+            vlib.run_harness(case["harness_args"])
+        except vlib.HarnessHang as h:
+            print("still hangs: %s" % h.info)
+            print("VIOLATION property=%s replay=%s" % (pid, path))
+            return 1
+        print("recording now terminates")
+        return 0
     vlib.build_java()
     d = vlib.workdir("replay-run")
     ev = case["event"]
